@@ -20,6 +20,15 @@ package middleware
 //@   ensures credentials: nextServed == 1 ==> (exists x string :: r.Header.Get("Authorization") == "Basic" + " " + x && b64dec(x) == login + ":" + pass)
 
 // Closing the gzip wrapper flushes to the underlying writer; it enters no handler.
+// The gzip wrapper treats every 2xx status alike, in WriteHeader as in Write and Close:
+// a 2xx status is kept back until Close (the body is compressed first), any other
+// status goes to the real writer at once.
+//@ func (*gzipResponseWriter).WriteHeader [C20]
+//@   flag checks=-index,-assert
+//@   modifies fields(gzw), statusWrites, lastStatus
+//@   ensures success-status-is-deferred: !old(gzw.codeSet) && code / 100 == 2 ==> statusWrites == old(statusWrites) && gzw.code == code && gzw.codeSet
+//@   ensures other-status-is-forwarded-at-once: !old(gzw.codeSet) && code / 100 != 2 ==> statusWrites == old(statusWrites) + 1 && lastStatus == code
+//@   ensures only-the-first-status-counts: old(gzw.codeSet) ==> statusWrites == old(statusWrites) && gzw.code == old(gzw.code)
 // ... and it hands the handler's deferred 2xx status on to the real writer, whether
 // or not a body was written (a 204 answered through the gzip wrapper stays a 204).
 //@ func (*gzipResponseWriter).Close [C20]
